@@ -116,6 +116,83 @@ pub fn check_case(l: &mut Local, case: &Case) {
             }
         }
     }
+    // The sampled entry point of the same impls: the state under two sample ids (one entry), next to a
+    // complete companion state (all ones) under a third id. Every sample's value is that of evaluating
+    // its state alone; one incomplete state makes the whole call fail.
+    let mut ones: Vec<(u64, f64)> = occurring.iter().map(|i| (*i, 1.0)).collect();
+    for (i, _) in &case.state {
+        if !occurring.contains(i) {
+            ones.push((*i, 1.0));
+        }
+    }
+    let mut samples = v1::Samples::default();
+    samples.add_sample(5, st.clone());
+    samples.add_sample(9, mk_state(&ones));
+    samples.add_sample(2, st.clone());
+    let expected_ones = poly.eval(&qstate(&ones)).expect("all ids present");
+    for (path, r) in eval_samples_all_paths(&f, &samples) {
+        l.transitions += 1;
+        let r = match r {
+            Ok(r) => r,
+            Err(p) => {
+                l.violation(&format!("{variant}/samples/panic"), || json!(case), format!("{path}::evaluate_samples panicked: {p}"));
+                continue;
+            }
+        };
+        if !missing.is_empty() {
+            if r.is_ok() {
+                l.violation(
+                    &format!("{variant}/samples/missing-variable-not-an-error"),
+                    || json!(case),
+                    format!("{path}::evaluate_samples succeeded although the state of samples 5 and 2 lacks occurring id(s) {missing:?}"),
+                );
+            }
+            continue;
+        }
+        let expected = poly.eval(&qst).expect("all ids present");
+        match r {
+            Err(e) => l.violation(&format!("{variant}/samples/unexpected-error"), || json!(case), format!("{path}::evaluate_samples failed ({e}) on complete states")),
+            Ok((vals, used)) => {
+                let close = |v: Option<f64>, want: &Q, st: &QState| -> bool {
+                    let Some(vq) = v.and_then(q_opt) else { return false };
+                    if case.exact {
+                        &vq == want
+                    } else {
+                        let n = 4 * (case.f.n_terms() as i64 + 2) * (poly.degree() as i64 + 1);
+                        let u = qr(1, 1i64 << 53);
+                        let gamma = &(qi(n) * &u) / &(qi(1) - qi(n) * &u);
+                        (vq - want).abs() <= gamma * abs_mag(&case.f, st)
+                    }
+                };
+                let got = (vals.get(5), vals.get(2), vals.get(9));
+                let keys: BTreeSet<u64> = vals.iter().map(|(i, _)| *i).collect();
+                if !close(got.0, &expected, &qst) || !close(got.1, &expected, &qst) || !close(got.2, &expected_ones, &qstate(&ones)) || keys != [2u64, 5, 9].into_iter().collect() {
+                    l.violation(
+                        &format!("{variant}/samples/value"),
+                        || json!(case),
+                        format!("{path}::evaluate_samples gives (sample 5, sample 2, sample 9) = {got:?} keyed by {keys:?}; evaluating each state alone gives {} , {} , {}", qs(&expected), qs(&expected), qs(&expected_ones)),
+                    );
+                }
+                if used != occurring {
+                    l.violation(&format!("{variant}/samples/used-ids"), || json!(case), format!("{path}::evaluate_samples used ids {used:?}, occurring {occurring:?}"));
+                }
+            }
+        }
+    }
+}
+
+type SampledOut = Result<(v1::SampledValues, BTreeSet<u64>), String>;
+
+fn eval_samples_all_paths(f: &v1::Function, s: &v1::Samples) -> Vec<(&'static str, Result<SampledOut, String>)> {
+    use v1::function::Function as FE;
+    let mut out = vec![("Function", sdk(|| f.evaluate_samples(s).map_err(|e| format!("{e:#}"))))];
+    match &f.function {
+        Some(FE::Linear(l)) => out.push(("Linear", sdk(|| l.evaluate_samples(s).map_err(|e| format!("{e:#}"))))),
+        Some(FE::Quadratic(qd)) => out.push(("Quadratic", sdk(|| qd.evaluate_samples(s).map_err(|e| format!("{e:#}"))))),
+        Some(FE::Polynomial(p)) => out.push(("Polynomial", sdk(|| p.evaluate_samples(s).map_err(|e| format!("{e:#}"))))),
+        _ => {}
+    }
+    out
 }
 
 /// Σ|c_i Π x_j| over the *listed* terms of the message (not merged), for rounding bounds.
@@ -363,7 +440,7 @@ pub fn run(ctx: &Ctx) -> Finish {
     });
     Finish {
         level: "model_checking",
-        rule: "every function message of the bounded representation alphabet (all variants, unsorted/repeated terms, all 9 (row,col) positions, explicit zeros, absent/zero linear part) x every state over the value grid, plus the states lacking exactly one occurring id; long functions of every variant with 31..100 terms (distinct and repeating ids); non-trivial = non-zero polynomial and non-empty state".into(),
+        rule: "every function message of the bounded representation alphabet (all variants, unsorted/repeated terms, all 9 (row,col) positions, explicit zeros, absent/zero linear part) x every state over the value grid, plus the states lacking exactly one occurring id; each case also through evaluate_samples (the state under two sample ids beside a complete companion state); long functions of every variant with 31..100 terms (distinct and repeating ids); non-trivial = non-zero polynomial and non-empty state".into(),
         bounds: json!({
             "ids": [1,2,7], "id_extremes": [0, 3, "u64::MAX"],
             "linear_terms_max": ctx.tier.pick(3,4), "quadratic_entries_max": 3,
